@@ -244,7 +244,7 @@ pub fn is_mutating(e: &Ev) -> bool {
 }
 
 /// resolve an event path through symlinks as far as the filesystem (after the run) allows
-fn real_rel(root: &[u8], p: &[u8]) -> Option<Vec<u8>> {
+pub fn real_rel(root: &[u8], p: &[u8]) -> Option<Vec<u8>> {
     let pp = pb(p);
     let real = match std::fs::canonicalize(pp.parent().unwrap_or(&pp)) {
         Ok(par) => {
